@@ -1025,6 +1025,58 @@ def stress_suite(ctx):
 # ------------------------------------------------------------------------------------------------
 
 
+def exports_with_parameters(ctx):
+    """History, always present: an export with extra parameters (`as_dict(use=..., kid=..., alg=..., key_ops=...)`, of a key
+    and of a key set, default and private form) - the parameters belong to the exported DOCUMENT.  Afterwards the key is
+    what it was: nothing in the shared objects changed (frame), the caller editing the returned document changes nothing
+    either, and every later export / thumbprint / kid / signing verdict equals that of a fresh key."""
+    from joserfc import jws
+    for kn in sorted(World().keys):
+        for target in ("key", "keyset"):
+            for private in (None, True, False):
+                world = World()
+                world.make_keyset()
+                k = world.keys[kn]
+                if target == "keyset" and k not in world.keyset.keys:
+                    continue
+                params = {"use": "enc", "kid": "exported-under-this-name", "alg": "X-other", "key_ops": ["verify"]}
+                hist = [(f"{target}.as_dict", {"key": kn, "private": private, "params": params})]
+                replay = {"suite": "exports-with-parameters", "history": hist, "seed": ctx.seed}
+                before = snapshot(world)
+                try:
+                    out = k.as_dict(private=private, **params) if target == "key" else world.keyset.as_dict(private=private, **params)
+                except Exception as e:  # noqa: BLE001
+                    ctx.count("export-params", (kn, target, private), True, f"refused:{type(e).__name__}")
+                    continue
+                ctx.count("export-params", (kn, target, private), True, "exported")
+                docs = [out] if target == "key" else out["keys"]
+                for d in docs:                               # the application edits the document it was given
+                    d["kid"] = "edited-by-the-caller"
+                    d.pop("kty", None)
+                    d["use"] = "sig"
+                leaks = snapshot_diff(before, snapshot(world), world)
+                if leaks:
+                    frame_broken(ctx, f"{target}.as_dict(private={private}, **params) on {kn}", leaks, replay)
+                for name in ("key.as_dict", "key.thumbprint", "key.as_pem", "keyset.as_dict", "key.ensure_kid"):
+                    bucket, fail = key_call(name, kn, world)
+                    ctx.disagreements_checked += 1
+                    if fail:
+                        ctx.report(f"after {target}.as_dict(private={private}, use=..., kid=..., alg=..., key_ops=...) on {kn}: {fail}",
+                                   dict(replay, then=name), f"export-params:{target}:{name}")
+                if kn.startswith("oct") and "only" not in kn:
+                    fresh = World.fresh()
+                    verdicts = []
+                    for w in (world, fresh):
+                        try:
+                            jws.serialize_compact({"alg": "HS256"}, b"p", w.keys[kn], algorithms=["HS256"])
+                            verdicts.append("ok")
+                        except Exception as e:  # noqa: BLE001
+                            verdicts.append(type(e).__name__)
+                    if verdicts[0] != verdicts[1]:
+                        ctx.report(f"after {target}.as_dict(private={private}, use='enc', ...) on {kn}: signing HS256 with the key -> {verdicts[0]}, in isolation -> {verdicts[1]}",
+                                   dict(replay, then="jws.sign.HS256"), f"export-params:{target}:sign-verdict")
+
+
 def run(ctx):
     import os
     import time
@@ -1032,7 +1084,7 @@ def run(ctx):
     register_ecdh_1pu()
     only = os.environ.get("C20_ONLY", "").split(",") if os.environ.get("C20_ONLY") else None
     ctx.extra["suite_wall_s"] = {}
-    for nm, f in (("sched-key", sched_key_suite), ("sched-api", sched_api_suite), ("history", history_suite), ("pairs", pairs_suite),
+    for nm, f in (("export-params", exports_with_parameters), ("sched-key", sched_key_suite), ("sched-api", sched_api_suite), ("history", history_suite), ("pairs", pairs_suite),
                   ("stress", stress_suite)):
         if only and nm not in only:
             continue
